@@ -535,3 +535,205 @@ def optional_falsy_truthiness(prog, cls_info):
                 out.append((node, f"optional-falsy-truth:{a}", f"{cls_info.name}.{mname} tests the truth value of `{A.unparse(e)}`, declared `… | None` with {falsy[a]}: "
                             f"a value that is present but false is treated as absent (compare with `is not None`)"))
     return out
+
+
+def stale_precomputed_hash(fn_node):
+    """``self._hash = hash((self.a, self.b))`` followed, on some path, by a store to ``self.a``: the stored hash still
+    describes the old value while equality (which reads the attributes) sees the new one — equal objects, different hashes."""
+    from .cfg import cfg_of
+    out = []
+    if not isinstance(fn_node, (ast.FunctionDef, ast.AsyncFunctionDef)) or not fn_node.args.args:
+        return out
+    me = fn_node.args.args[0].arg
+
+    def hash_store(st):
+        """(attr name, value expr) when the statement stores a hash-like attribute of self"""
+        if isinstance(st, ast.Assign) and len(st.targets) == 1:
+            a = A.self_attr(st.targets[0], me)
+            if a and "hash" in a.lower():
+                return a, st.value
+        if isinstance(st, ast.Expr) and isinstance(st.value, ast.Call):
+            c = st.value
+            fn = A.unparse(c.func)
+            if fn in ("sf", "object.__setattr__", "setattr") and len(c.args) == 3 and isinstance(c.args[0], ast.Name) and c.args[0].id == me \
+                    and isinstance(c.args[1], ast.Constant) and isinstance(c.args[1].value, str) and "hash" in c.args[1].value.lower():
+                return c.args[1].value, c.args[2]
+        return None
+
+    def attr_stores(st):
+        res = set()
+        if isinstance(st, (ast.Assign, ast.AugAssign, ast.AnnAssign)):
+            tg = st.targets if isinstance(st, ast.Assign) else [st.target]
+            for t in tg:
+                for x in (t.elts if isinstance(t, (ast.Tuple, ast.List)) else [t]):
+                    a = A.self_attr(x, me)
+                    if a:
+                        res.add(a)
+        if isinstance(st, ast.Expr) and isinstance(st.value, ast.Call):
+            c = st.value
+            if A.unparse(c.func) in ("sf", "object.__setattr__", "setattr") and len(c.args) == 3 and isinstance(c.args[0], ast.Name) and c.args[0].id == me \
+                    and isinstance(c.args[1], ast.Constant) and isinstance(c.args[1].value, str):
+                res.add(c.args[1].value)
+        return res
+
+    hs = [(st,) + hash_store(st) for st in A.body_walk(fn_node) if hash_store(st)]
+    if not hs:
+        return out
+    g = cfg_of(fn_node)
+    for st, hattr, val in hs:
+        reads = {A.self_attr(n, me) for n in ast.walk(val) if isinstance(n, ast.Attribute)} - {None, hattr}
+        if not reads:
+            continue
+        hn = g.node_of(st)
+        if hn is None:
+            continue
+        after = g.reach([hn])
+        for n in after:
+            if n.ast is None or n is hn:
+                continue
+            bad = attr_stores(n.ast) & reads
+            for a in sorted(bad):
+                out.append((n.ast, f"hash-stale:{a}", f"`self.{a}` is assigned (line {getattr(n.ast, 'lineno', '?')}) after `self.{hattr}` was computed from it (line {st.lineno}): "
+                            f"the stored hash keeps describing the old value while comparisons read the new one"))
+    return out
+
+
+_MATERIALISERS = {"tuple", "frozenset", "list", "set", "dict", "sorted", "str", "bytes", "int", "bool", "len", "ImmutableDict", "OrderedDict"}
+
+
+def cached_injected_result(cls_info):
+    """``self._cache[key] = self._pull(key)`` where ``_pull`` is a callable handed to ``__init__``: whatever the caller's
+    function returns — possibly a generator or another single-pass iterable — is remembered as is, so the first reader
+    consumes it and every later lookup gets an exhausted object.  The remembered value must be materialised first."""
+    out = []
+    init = cls_info.methods.get("__init__")
+    if init is None or not init.params():
+        return out
+    me = init.params()[0]
+    params = set(init.params()[1:])
+    injected = {A.self_attr(t, me) for t, v, st in A.assignments(init.node) if isinstance(v, ast.Name) and v.id in params and A.self_attr(t, me)}
+    injected.discard(None)
+    if not injected:
+        return out
+    for mname, m in cls_info.methods.items():
+        ps = m.params()
+        if not ps or mname == "__init__":
+            continue
+        s = ps[0]
+
+        def raw_call(v, depth=0):
+            if isinstance(v, ast.Call) and isinstance(v.func, ast.Attribute) and A.self_attr(v.func, s) in injected:
+                return v
+            if isinstance(v, ast.Name) and depth < 2:
+                ds = [vv for t, vv, st in A.assignments(m.node, v.id)]
+                hits = [raw_call(d, depth + 1) for d in ds]
+                return hits[0] if ds and all(hits) else None
+            return None
+        for st in A.body_walk(m.node):
+            if not isinstance(st, ast.Assign):
+                continue
+            stores = [t for t in st.targets if (isinstance(t, ast.Subscript) and A.self_attr(t.value, s)) or A.self_attr(t, s)]
+            if not stores:
+                continue
+            c = raw_call(st.value)
+            if c is not None:
+                out.append((st, f"cached-unmaterialised:{A.unparse(c.func)}", f"{cls_info.name}.{mname} remembers the result of the injected callable `{A.unparse(c.func)}` in "
+                            f"`{A.unparse(stores[0])}` as it comes: if the callable returns a generator or other single-pass iterable, the first reader drains it and every "
+                            f"later lookup is served an empty object (materialise with tuple()/frozenset() before storing)"))
+    return out
+
+
+def lazy_parse_not_invalidated(prog, cls_info):
+    """A class loads a file lazily behind a flag (``if self._loaded: return … self._loaded = True`` in a method that reads
+    ``self.<path>``) and another of its methods rewrites that same file: after the write the flag must be cleared on every
+    normal way out, or the object keeps answering from the parse of the old file."""
+    from . import fsfx
+    from .cfg import cfg_of
+    out = []
+    loaders = []  # (method, flag attr, path attrs read)
+    for mname, m in cls_info.methods.items():
+        ps = m.params()
+        if not ps:
+            continue
+        me = ps[0]
+        body = m.node.body
+        first = next((s for s in body if not (isinstance(s, ast.Expr) and isinstance(s.value, ast.Constant))), None)
+        if not (isinstance(first, ast.If) and A.self_attr(first.test, me) and len(first.body) == 1 and isinstance(first.body[0], ast.Return)):
+            continue
+        flag = A.self_attr(first.test, me)
+        sets_true = any(isinstance(s, ast.Assign) and any(A.self_attr(t, me) == flag for t in s.targets) and isinstance(s.value, ast.Constant) and s.value.value is True
+                        for s in A.body_walk(m.node))
+        if not sets_true:
+            continue
+        paths = {A.self_attr(a, me) for c in A.calls(m.node) for a in c.args if A.self_attr(a, me)}
+        paths.discard(flag)
+        if paths:
+            loaders.append((m, flag, paths))
+    if not loaders:
+        return out
+    eng = fsfx.engine(prog)
+    for lm, flag, paths in loaders:
+        for mname, m in cls_info.methods.items():
+            if m is lm or not m.params() or mname == "__init__":
+                continue
+            me = m.params()[0]
+            writes = [s for s in eng.direct(m) if s.op in ("write", "rename") and any(("self:" + p) in s.srcs for p in paths)]
+            if not writes:
+                continue
+            g = cfg_of(m.node)
+            resets = [g.node_of(s) for s in A.body_walk(m.node) if isinstance(s, ast.Assign) and any(A.self_attr(t, me) == flag for t in s.targets)
+                      and isinstance(s.value, ast.Constant) and s.value.value in (False, None)]
+            resets = [r for r in resets if r is not None]
+            for w in writes:
+                wn = g.node_of(w.node)
+                if wn is None:
+                    continue
+                path = g.find_path([wn], lambda n: n is g.exit, avoid=lambda n: n in resets, edge_ok=lambda a, b, lab: lab != "exc")
+                if path is not None:
+                    out.append((w.node, f"lazy-parse-stale:{flag}", f"{cls_info.name}.{mname} rewrites `{w.path}` (line {w.node.lineno}) and can return without clearing `self.{flag}`, the flag "
+                                f"{cls_info.name}.{lm.name} consults before parsing that file: an object that was already consulted keeps serving the contents of the old file"))
+    return out
+
+
+def closes_borrowed_handle(cls_info):
+    """a provider (property / method) that returns either a handle it opens itself or one the object was *given*
+    (``return open(self._source)`` / ``return self._source``) has mixed ownership: closing its result unconditionally —
+    ``with self._fd as fd:`` or ``fd.close()`` outside any test — also closes the caller's own file object."""
+    out = []
+    mixed = {}
+    for mname, m in cls_info.methods.items():
+        ps = m.params()
+        if not ps:
+            continue
+        rets = [r.value for r in A.returns(m.node) if r.value is not None]
+        opens = [r for r in rets if isinstance(r, ast.Call) and A.unparse(r.func).split(".")[-1] in ("open", "fdopen")]
+        borrowed = [r for r in rets if A.self_attr(r, ps[0])]
+        if opens and borrowed:
+            mixed[mname] = A.unparse(borrowed[0])
+    if not mixed:
+        return out
+    for mname, m in cls_info.methods.items():
+        ps = m.params()
+        if not ps or mname in mixed:
+            continue
+        me = ps[0]
+
+        def from_provider(e):
+            if isinstance(e, ast.Call):
+                e = e.func
+            a = A.self_attr(e, me)
+            return a if a in mixed else None
+        held = {t.id: from_provider(v) for t, v, st in A.assignments(m.node) if isinstance(t, ast.Name) and from_provider(v)}
+        for n in A.body_walk(m.node):
+            if isinstance(n, (ast.With, ast.AsyncWith)):
+                for it in n.items:
+                    p = from_provider(it.context_expr) or (held.get(it.context_expr.id) if isinstance(it.context_expr, ast.Name) else None)
+                    if p:
+                        out.append((n, f"closes-borrowed:{p}", f"{cls_info.name}.{mname} uses `{A.unparse(it.context_expr)}` as a context manager; `{p}` returns `{mixed[p]}` itself "
+                                    f"when the object was built around an open file, so leaving the block closes the caller's file object"))
+            elif isinstance(n, ast.Expr) and isinstance(n.value, ast.Call) and isinstance(n.value.func, ast.Attribute) and n.value.func.attr == "close" \
+                    and isinstance(n.value.func.value, ast.Name) and n.value.func.value.id in held and not any(isinstance(p_, ast.If) for p_ in A.parents(n)):
+                p = held[n.value.func.value.id]
+                out.append((n, f"closes-borrowed:{p}", f"{cls_info.name}.{mname} closes `{n.value.func.value.id}` unconditionally; it comes from `{p}`, which returns `{mixed[p]}` itself "
+                            f"when the object was built around an open file"))
+    return out
